@@ -74,6 +74,10 @@ ASSERT_RE = re.compile(r"([A-Za-z0-9_./+-]+):\d+: (.*?): Assertion '(.*?)' faile
 
 def crash_signature(errtext, status):
     """Diagnose an abnormal child end from its stderr: kind @ first ezc3d:: frame."""
+    big = re.search(r"ERROR: AddressSanitizer: (allocator is out of memory|requested allocation size|allocation-size-too-big|out of memory)", errtext)
+    if big:
+        f = FRAME_RE.search(errtext[big.start():])
+        return "asan:allocation_too_big@%s" % (f.group(1) if f else "?")
     m = SIG_RE.search(errtext)
     if m and m.group(1).strip() == "ABRT" and ASSERT_RE.search(errtext):
         m = None      # a libstdc++ assertion: the assertion text is the better diagnosis
@@ -185,7 +189,18 @@ def parse_out(outdir, prop_for_crash=None, want_tags=("RES", "FINAL", "BUDGET"))
             elif status == "watchdog":
                 R.watchdog.append(case)
             elif status == "harness":
-                R.harness.append(case)
+                # a library call the workload makes unconditionally (valid use by construction) threw: on the unchanged tree this never
+                # happens, so it is reported as a violation of the running property rather than hidden as a harness problem
+                msg = ""
+                try:
+                    with open(logp, errors="replace") as f:
+                        for l in f:
+                            if l.startswith("END harness_exception"):
+                                msg = l[len("END harness_exception"):].strip()
+                except FileNotFoundError:
+                    pass
+                kmsg = re.sub(r"[^A-Za-z ]+", " ", msg).split()[:6]
+                R.viol.append(dict(prop="*", key="unexpected_exception_in_valid_use/%s|during=%s" % ("_".join(kmsg), last_pre), detail="the workload's own (valid) library call threw: %s" % msg, case=case, log=logp))
             elif status == "budget":
                 b = [l for c, l in R.lines["BUDGET"] if c == case]
                 R.budget.append((case, b[-1] if b else "BUDGET ?"))
